@@ -1030,17 +1030,20 @@ fn parse_punctuated_nested_meta(
                 }
 
                 let attr_name = path.get_ident().unwrap().to_string();
-                match (wrapper_name, attr_name.as_str()) {
-                    (None, "ignore") => info.enabled = Some(false),
-                    (None, "forward") => info.forward = Some(true),
-                    (Some("not"), "forward") => info.forward = Some(false),
-                    (None, "owned") => info.owned = Some(true),
-                    (None, "ref") => info.ref_ = Some(true),
-                    (None, "ref_mut") => info.ref_mut = Some(true),
-                    (None, "source") => info.source = Some(true),
-                    (Some("not"), "source") => info.source = Some(false),
-                    (None, "backtrace") => info.backtrace = Some(true),
-                    (Some("not"), "backtrace") => info.backtrace = Some(false),
+                let (slot, value) = match (wrapper_name, attr_name.as_str()) {
+                    (None, "ignore") => {
+                        info.enabled = Some(false);
+                        continue;
+                    }
+                    (None, "forward") => (&mut info.forward, true),
+                    (Some("not"), "forward") => (&mut info.forward, false),
+                    (None, "owned") => (&mut info.owned, true),
+                    (None, "ref") => (&mut info.ref_, true),
+                    (None, "ref_mut") => (&mut info.ref_mut, true),
+                    (None, "source") => (&mut info.source, true),
+                    (Some("not"), "source") => (&mut info.source, false),
+                    (None, "backtrace") => (&mut info.backtrace, true),
+                    (Some("not"), "backtrace") => (&mut info.backtrace, false),
                     _ => {
                         return Err(Error::new(
                             path.span(),
@@ -1050,6 +1053,15 @@ fn parse_punctuated_nested_meta(
                             ),
                         ))
                     }
+                };
+                if slot.replace(value).is_some_and(|old| old != value) {
+                    return Err(Error::new(
+                        path.span(),
+                        format!(
+                            "Attribute parameter `{}` is specified together with its negation",
+                            quote! { #path }
+                        ),
+                    ));
                 }
             }
         }
